@@ -20,6 +20,13 @@ ASSUMPTIONS = [
     "same parenthesised sum of two / three of {a, b, c} in every pair of orders, alone and inside "
     "+ - : * / ** and on either side of '|' (exhaustive), and random trees S op S' with S' = S up to the "
     "order of the operands of '+'",
+    "differences of group items: `L - (e | g)` with the right operand ONE parenthesised group item of "
+    "every kind -- a lone group-specific intercept (1 | g) (resolves to a single GroupSpecificTerm), a "
+    "slope with its implicit intercept, a slope without (0 + x, x + 0, -1 + x), an explicit intercept, "
+    "several slopes, an interaction (these resolve to a Model) -- over two grouping factors, applied to "
+    "models that contain the item, part of it, a superset of it, or nothing of it (exhaustive over one "
+    "group item on the left, alone / next to a common term / subtracted twice; random sums of one to "
+    "three items followed by one or two such subtractions and further additions)",
     "in-place mutation of Model objects is unobservable through Resolver (each value consumed once): "
     "checked by this correspondence, not assumed",
 ]
@@ -157,6 +164,49 @@ def twin_forms(tier, seed):
     return out
 
 
+# group items: the effect side of '|' as an intercept, a slope (implicit intercept), a slope with
+# the intercept removed, an explicit intercept, several slopes, an interaction
+GROUP_EFFECTS = ["1", "x", "0 + x", "1 + x", "x + 0", "x + z", "0 + x + z", "x:z", "-1 + x"]
+GROUP_FACTORS = ["g", "h"]
+
+
+def group_difference_forms(tier, seed):
+    """'-' whose right operand is ONE parenthesised group item `(e | g)`, for every kind of item
+    (a lone group-specific intercept resolves to a single GroupSpecificTerm, the others to a Model),
+    applied to models in which the item -- or part of it, or a superset of it -- is present, and to
+    models in which it is absent (other grouping factor, no group term at all): exhaustive over
+    `L - (e | g)` with L one group item, alone / after a common term / before one; plus random sums of
+    one to three items (common atoms and group items) followed by one or two such subtractions and
+    possibly further additions"""
+    out = []
+    items = [f"({e} | {g})" for e in GROUP_EFFECTS for g in GROUP_FACTORS]
+    for left in items + ["a", "a + b"]:
+        for sub in items:
+            for ctx in ("{l} - {s}", "a + {l} - {s}", "{l} + a - {s}", "{l} - {s} + b", "{l} - {s} - {s}"):
+                out.append("y ~ " + ctx.format(l=left, s=sub))
+    rng = rng_for(seed, "c02", "group-differences")
+    commons = ["a", "b", "x", "a:b", "f(x)", "1", "0"]
+    for _ in range(1500 if tier == "quick" else 40000):
+        parts = [rng.choice(items) if rng.random() < 0.65 else rng.choice(commons)
+                 for _ in range(rng.randrange(1, 4))]
+        text = " + ".join(parts)
+        present = [p for p in parts if p in items]
+        for _ in range(rng.choice([1, 1, 2])):
+            if present and rng.random() < 0.7:
+                # an item of the model, or the lone intercept / the slope of one of its items
+                sub = rng.choice(present)
+                if rng.random() < 0.5:
+                    g = sub[:-1].split(" | ")[1]
+                    sub = f"({rng.choice(['1', 'x', '0 + x', 'z'])} | {g})"
+            else:
+                sub = rng.choice(items)
+            text += " - " + sub
+            if rng.random() < 0.3:
+                text += " + " + (rng.choice(items) if rng.random() < 0.5 else rng.choice(commons))
+        out.append(rng.choice(["y ~ ", "y ~ ", "", "y ~ 0 + "]) + text)
+    return out
+
+
 def impl(s):
     from formulae import model_description
     try:
@@ -180,7 +230,9 @@ def explore(tier, seed, res=None, replay=None):
                 "ones (general alphabet, and families of call atoms differing only in one keyword "
                 "value or literal: numbers, strings, bools, None, nested calls, arithmetic); "
                 "plus twin operands (S op S' with S, S' the same sum in any two orders, every operator "
-                "and context); the denotation is taken on the parse under the documented precedence table; "
+                "and context); plus differences `L - (e | g)` of one parenthesised group item of every kind "
+                "(lone intercept, slope, 0 + x, several slopes, interaction) from models that contain it, part "
+                "of it, or nothing of it; the denotation is taken on the parse under the documented precedence table; "
                 "non-trivial = parses and lies in the documented language (Spec.C02.Lang); distinct "
                 "by rendered string")
     forms = []
@@ -254,6 +306,14 @@ def explore(tier, seed, res=None, replay=None):
             if s not in seen:
                 seen.add(s)
                 forms.append(s)
+
+        # '-' applied to one parenthesised group item, present in / absent from the model
+        n0 = len(forms)
+        for s in group_difference_forms(tier, seed):
+            if s not in seen:
+                seen.add(s)
+                forms.append(s)
+        res.count("group-difference forms", len(forms) - n0)
 
     impl_out = [impl(s) for s in forms]
     out = ask([{"op": "c02", "s": s, "impl": io} for s, io in zip(forms, impl_out)])
